@@ -292,12 +292,36 @@ class SymRat:
     __reduce_ex__ = _leak('__reduce_ex__')
     __copy__ = lambda self: self            # noqa: E731
     __deepcopy__ = lambda self, memo: self  # noqa: E731
-    __divmod__ = _leak('__divmod__')
-    __rdivmod__ = _leak('__rdivmod__')
-    __floordiv__ = _leak('__floordiv__')
-    __rfloordiv__ = _leak('__rfloordiv__')
-    __mod__ = _leak('__mod__')
-    __rmod__ = _leak('__rmod__')
+    # floor division and remainder: q = floor(x / y) as a fresh integer (Python: int for Decimal / Fraction
+    # operands), r = x - q*y with the flavour of a difference
+    def _divmod(self, other, swap=False):
+        quo = self._bin(other, 'div', swap)
+        if quo is NotImplemented:
+            return NotImplemented
+        if not isinstance(quo, SymRat):
+            raise ConcretisationLeak('floor division leading to a float')
+        q = quo.__floor__()
+        x, y = (other, self) if swap else (self, other)
+        return q, x - q * y
+
+    def __divmod__(self, o): return self._divmod(o)
+    def __rdivmod__(self, o): return self._divmod(o, True)
+
+    def __floordiv__(self, o):
+        r = self._divmod(o)
+        return r if r is NotImplemented else r[0]
+
+    def __rfloordiv__(self, o):
+        r = self._divmod(o, True)
+        return r if r is NotImplemented else r[0]
+
+    def __mod__(self, o):
+        r = self._divmod(o)
+        return r if r is NotImplemented else r[1]
+
+    def __rmod__(self, o):
+        r = self._divmod(o, True)
+        return r if r is NotImplemented else r[1]
     as_integer_ratio = _leak('as_integer_ratio')
     limit_denominator = _leak('limit_denominator')
     as_tuple = _leak('as_tuple')
